@@ -212,14 +212,15 @@ impl Emitter {
             None => expr.to_string(),
         };
         self.expect(cls, what.to_string(), &e, render_value(want));
+        if cls == "state" {
+            return; // interchangeability of what get/contains return is judged in their own transitions
+        }
         match want["k"].as_str().unwrap_or("?") {
             "variant" => {
                 self.expect("interchange", format!("{} == {}", what, lit(want)), &format!("{} == {}", e, lit(want)), "true".into());
-                if cls == "result" {
-                    self.expect("interchange", format!("{} == {}", lit(want), what), &format!("{} == {}", lit(want), e), "true".into());
-                    let is_just = want["tag"] == "Just";
-                    self.expect("interchange", format!("isJust({})", what), &format!("maybe.isJust({})", e), format!("{}", is_just));
-                }
+                self.expect("interchange", format!("{} == {}", lit(want), what), &format!("{} == {}", lit(want), e), "true".into());
+                let is_just = want["tag"] == "Just";
+                self.expect("interchange", format!("isJust({})", what), &format!("maybe.isJust({})", e), format!("{}", is_just));
             }
             "list" => {
                 let l = self.list_local(want, elem);
@@ -258,7 +259,8 @@ fn transition(case: &Value) -> (Vec<String>, Vec<PlanLine>) {
         let call = em.call(o);
         if !is_op {
             // history: only rebuild the state (results of earlier operations were judged in their own transition)
-            em.stmt(format!("h{} :: {}", k, call));
+            let void = matches!(o["op"].as_str().unwrap(), "push" | "prepend" | "set" | "update" | "remove" | "add");
+            em.stmt(if void { call } else { format!("h{} :: {}", k, call) });
             continue;
         }
         if case["res"]["k"] == "void" {
